@@ -773,7 +773,7 @@ class VectorStarSet(object):
         :param starset: StarSet, from which we pull nearly all of the info that we need
         """
         if starset.Nshells == 0: return
-        if starset == self.starset: return
+        # (no shortcut for "the same star set": a StarSet object can be regenerated in place with a new range)
         self.starset = starset
         dim = starset.crys.dim
         self.vecpos = []
